@@ -50,8 +50,10 @@ def gen_configs(rng, n):
             budget = max(budget, 70)
         small = (i % 2 == 1) or mode == "det" and i % 4 == 0      # small training-set options: selection is non-trivial
         opts = {}
+        if i % 3 == 0:
+            opts["cache_size"] = rng.choice([8, 20, 35])             # the evaluation log outgrows its initial capacity during the run
         if small:
-            opts = dict(n_train_min=rng.choice([4, 6, 8]), n_train_max=rng.choice([10, 12, 15]), buffer_ntrain=rng.choice([2, 3, 5]))
+            opts.update(n_train_min=rng.choice([4, 6, 8]), n_train_max=rng.choice([10, 12, 15]), buffer_ntrain=rng.choice([2, 3, 5]))
             if mode != "det":
                 opts["buffer_ntrain"] = rng.choice([170, 180, 185])     # noisy modes raise n_train_max to >= 200
                 opts["gp_radius"] = rng.choice([0.3, 0.5, 1.0])          # few points within the radius
@@ -168,6 +170,10 @@ def run_one(cfg):
 
     def w_gsn(function_logger, u, gp, opts, optim_state):
         X, Y, S, xmax, nf = _logged(function_logger)
+        if xmax != len(X) - 1:
+            # "the logged points": the extent the selection looks at must be the whole log (also after the cache has grown)
+            bad("log-extent", f"the training-set selection sees rows 0..{xmax} of the log while {len(X)} evaluations are logged "
+                              f"(cache capacity {function_logger.X.shape[0]})", f"get_grid_search_neighbors {stats['gsn']}")
         st["in_gsn"], st["dist"] = True, None
         try:
             U, Yo, S2 = o_gsn(function_logger, u, gp, opts, optim_state)
@@ -322,8 +328,8 @@ def run_one(cfg):
         return o_fit(self, X, y, s2, *a, **k)
 
     def mk_lcb(orig, tag):
-        def w(xi, func_count, gp, sqrt_beta=None):
-            z, f_mu, f_s = orig(xi, func_count, gp, sqrt_beta)
+        def w(xi, func_count, gp, sqrt_beta=None, *a, **k):
+            z, f_mu, f_s = orig(xi, func_count, gp, sqrt_beta, *a, **k)
             stats["lcb" if tag == "bads" else "lcb_es"] += 1
             where = f"acq_fcn_lcb[{tag}] call {stats['lcb'] + stats['lcb_es']} (func_count {func_count})"
             if sqrt_beta is not None:
